@@ -452,6 +452,7 @@ class History(RuleBasedStateMachine):
     @initialize(mode=mode_st)
     def init(self, mode):
         self.mode = list(mode)
+        Writers.drop(mode)        # every history starts from newly constructed writers
 
     def _step(self, item, keep):
         """Judge the unit `items + [item] + state probe`; a state-changing item is kept for the rest of the history."""
@@ -549,6 +550,16 @@ def run_stateful(shard, rec):
                 v.case = ddmin_items(v.case, v.sig)
             rec.violation(v)
             excluded.add(v.sig)
+            continue
+        except hypothesis.errors.Flaky as f:
+            # the history failed, but not in the same way when Hypothesis replayed it: report what was seen
+            vs = [x for x in getattr(f, 'exceptions', ()) if isinstance(x, Violation)]
+            if not vs:
+                raise
+            v = vs[0]
+            excluded.add(v.sig)
+            v.sig = 'flaky:' + v.sig
+            rec.violation(v)
             continue
         break
 
